@@ -28,6 +28,8 @@ def das():
 
 
 def cases(rng, tier):
+    for sq in gen.sparse_charge_seqs(rng, 20 if tier == "quick" else 200) + gen.AMBIGUOUS_WORDS:
+        yield Case(["q scd " + sq.upper() if sq.isupper() else "mkq %s scd" % __import__("vf.real", fromlist=["hex6"]).hex6(sq)], {"kind": "sparse-or-ambiguous"})
     # duplicates of objects with built-up state: every way of copying x every kind of state
     for l in core.copy_cases(rng, 2 if tier == "quick" else 12, ['scd']):
         yield Case([l], {"kind": "duplicate-of-object"})
